@@ -113,11 +113,50 @@ func c12(e *Env) {
 			return
 		}
 	}
+	// some statements fail to prepare the first time (a node whose schema lags answers INVALID) and
+	// are prepared again, as a driver does
+	if c.Choose("prepare-fails-first", 3) == 2 {
+		for _, st := range stmts {
+			if c.Choose("which-fails-first", 2) == 1 {
+				w.Script[st.tok] = []world.Outcome{world.ErrOutcome("invalid", &message.Invalid{ErrorMessage: "unconfigured table t_" + st.tok})}
+				st.cl.Send("prepare", st.tok, &message.Prepare{Query: st.text}, nil)
+				e.Res.Stats["probe.c12.prepare_failed_first"]++
+			}
+		}
+		if !w.RunUntil(f.allAnswered, 10*time.Minute) {
+			return
+		}
+	}
 	for _, st := range stmts {
 		preps = append(preps, prep{st.cl.Send("prepare", st.tok, &message.Prepare{Query: st.text}, nil), st.sel})
 	}
 	if !w.RunUntil(f.allAnswered, 10*time.Minute) {
 		return
+	}
+	// some clients then move to another keyspace and prepare the same texts again: a node derives
+	// the id from the text and the keyspace, so these are further ids for the same statements
+	if c.Choose("same-text-second-keyspace", 3) == 2 {
+		for _, cl := range f.clients {
+			if c.Choose("who-moves", 2) == 0 {
+				continue
+			}
+			u := cl.Send("use", "", world.QueryMsg("USE ks2", primitive.ConsistencyLevelOne), nil)
+			if !w.RunUntil(func() bool { return len(u.Replies) > 0 }, 10*time.Minute) {
+				return
+			}
+			if _, ok := replyMsg(u).(*message.SetKeyspaceResult); !ok {
+				continue
+			}
+			for _, st := range stmts {
+				if st.cl == cl {
+					preps = append(preps, prep{cl.Send("prepare", st.tok, &message.Prepare{Query: st.text}, nil), st.sel})
+					e.Res.Stats["probe.c12.same_text_prepared_in_second_keyspace"]++
+				}
+			}
+		}
+		if !w.RunUntil(f.allAnswered, 10*time.Minute) {
+			return
+		}
 	}
 	for _, p := range preps {
 		pr, ok := replyMsg(p.req).(*message.PreparedResult)
